@@ -8,7 +8,7 @@
    arguments carried by the operation: the harness passes what the implementation chose. *)
 From Coq Require Import List ZArith Bool Arith Lia.
 Import ListNotations.
-From PT Require Export Model.SeatTypes Gen.Gen_Seat.
+From PT Require Export Base.ZScan Model.SeatTypes Gen.Gen_Seat.
 Open Scope Z_scope.
 
 Record sm := {
@@ -36,9 +36,6 @@ Definition with_pos (s : sm) (d sb bb : Z) : sm :=
 (* sp, exist := SeatData[z]; exist && sp != nil *)
 Definition seat_at (l : list (option sp)) (z : Z) : option sp :=
   if (0 <=? z) && (z <? Z.of_nat (length l)) then nth (Z.to_nat z) l None else None.
-
-Fixpoint zrange (lo : Z) (n : nat) : list Z :=
-  match n with O => [] | S k => lo :: zrange (lo + 1) k end.
 
 (* for i := lo; i < hi; i++ { seatID := idx i; if accepts (seat seatID) { return seatID } }; return -1 *)
 Definition scan (l : list (option sp)) (idx : Z -> Z) (lo hi : Z) (accepts : sp -> bool) : Z :=
